@@ -40,6 +40,51 @@ pub assume_specification<I: Iterator>[ <std::iter::Peekable<I> as Iterator>::nex
         rest(*old(p)).len() > 0 ==> r == Some(rest(*old(p))[0]) && rest(*final(p)) == rest(*old(p)).skip(1),
 ;
 
+// ---- slice::split(..).peekable(): ASSUMED std contract, parametric in the closure's verified ensures ----
+#[verifier::external_type_specification]
+#[verifier::external_body]
+#[verifier::reject_recursive_types(T)]
+#[verifier::reject_recursive_types(P)]
+pub struct ExSplit<'a, T: 'a, P: FnMut(&T) -> bool>(std::slice::Split<'a, T, P>);
+
+pub uninterp spec fn split_items<'a, T, P: FnMut(&T) -> bool>(s: std::slice::Split<'a, T, P>) -> Seq<&'a [T]>;
+
+pub open spec fn views<T>(s: Seq<&[T]>) -> Seq<Seq<T>> { Seq::new(s.len(), |i: int| s[i]@) }
+
+/// index of the first element satisfying `sep`, or s.len()
+pub open spec fn first_sep_by<T>(s: Seq<T>, sep: spec_fn(T) -> bool) -> nat
+    decreases s.len()
+{
+    if s.len() == 0 { 0 } else if sep(s[0]) { 0 } else { 1 + first_sep_by(s.skip(1), sep) }
+}
+/// the pieces between separators (always at least one piece), as `slice::split` documents
+pub open spec fn split_by<T>(s: Seq<T>, sep: spec_fn(T) -> bool) -> Seq<Seq<T>>
+    decreases s.len()
+{
+    let i = first_sep_by(s, sep) as int;
+    if i >= s.len() { seq![s] } else { seq![s.take(i)] + split_by(s.skip(i + 1), sep) }
+}
+
+pub assume_specification<'a, T, P: FnMut(&T) -> bool>[ <[T]>::split::<P> ](s: &'a [T], pred: P) -> (r: std::slice::Split<'a, T, P>)
+    requires
+        forall|c: &T| pred.requires((c,)),
+    ensures
+        forall|sep: spec_fn(T) -> bool| (forall|c: &T, b: bool| pred.ensures((c,), b) ==> b == sep(*c))
+            ==> views(split_items(r)) == #[trigger] split_by(s@, sep),
+;
+
+/// R6: `x.peekable()` is rewritten to `vf_peekable(x)` (Verus cannot attach a contract to a provided
+/// method of std's Iterator).  ASSUMED: the Peekable yields exactly the items of the iterator.
+#[verifier::external_body]
+pub fn vf_peekable<I: Iterator>(it: I) -> (r: std::iter::Peekable<I>)
+    ensures rest(r) == iter_items(it),
+{ it.peekable() }
+pub uninterp spec fn iter_items<I: Iterator>(it: I) -> Seq<I::Item>;
+/// ASSUMED: the items of a `slice::Split` are its pieces
+pub broadcast proof fn axiom_split_iter_items<'a, T, P: FnMut(&T) -> bool>(s: std::slice::Split<'a, T, P>)
+    ensures #[trigger] iter_items(s) == split_items(s),
+{ admit(); }
+
 /// The total order `Ord::cmp` induces on T, as a spec relation.  Uninterpreted; pinned down
 /// per type by an axiom whose statement Kani proves on the real derived `Ord` (U-SUB/ord).
 pub uninterp spec fn ord_le<T>(a: T, b: T) -> bool;
@@ -136,7 +181,12 @@ pub open spec fn weakly_sorted(s: Seq<Seq<u8>>) -> bool {
 }
 
 /// subtag sequence of an iterator over byte slices
-pub open spec fn toks(s: Seq<&[u8]>) -> Seq<Seq<u8>> { Seq::new(s.len(), |i: int| s[i]@) }
+pub open spec fn toks(s: Seq<&[u8]>) -> Seq<Seq<u8>> { views(s) }
+
+/// C02: sep = '-' or '_'
+pub open spec fn is_sep(c: u8) -> bool { c == 0x2d || c == 0x5f }
+/// the subtags of a byte string
+pub open spec fn subtags_of(s: Seq<u8>) -> Seq<Seq<u8>> { split_by(s, |c: u8| is_sep(c)) }
 
 pub proof fn lemma_toks_skip(s: Seq<&[u8]>, k: int)
     requires 0 <= k <= s.len(),
@@ -281,4 +331,19 @@ pub proof fn lemma_adjacent_strict_range(s: Seq<Seq<u8>>, i: int, j: int)
         lemma_adjacent_strict_range(s, i, j - 1);
         lemma_lex_lt_trans(s[i], s[j - 1], s[j]);
     }
+}
+
+pub proof fn lemma_split_nonempty<T>(s: Seq<T>, sep: spec_fn(T) -> bool)
+    ensures split_by(s, sep).len() >= 1,
+    decreases s.len(),
+{
+    let i = first_sep_by(s, sep) as int;
+    lemma_first_sep_bounds(s, sep);
+    if i < s.len() { lemma_split_nonempty(s.skip(i + 1), sep); }
+}
+pub proof fn lemma_first_sep_bounds<T>(s: Seq<T>, sep: spec_fn(T) -> bool)
+    ensures 0 <= first_sep_by(s, sep) <= s.len(),
+    decreases s.len(),
+{
+    if s.len() > 0 && !sep(s[0]) { lemma_first_sep_bounds(s.skip(1), sep); }
 }
